@@ -32,7 +32,7 @@ ANCHORS = ['loki/transformations/transform_derived_types.py', 'loki/transformati
            'loki/transformations/argument_shape.py', 'loki/transformations/routine_signatures.py']
 REQUIRED_REACH = ['expand_derived_args_kernel', 'expand_derived_args_caller', 'visit_CallStatement',
                   'remove_duplicate_args_from_calls', 'do_resolve_sequence_association']
-REQUIRED_COUNTERS = {'program_runs': 100, 'transformed_builds': 30}
+REQUIRED_COUNTERS = {'program_runs': 100, 'transformed_builds': 15}
 ASSUMPTIONS = ['gfortran 12 -O0 with run-time checks is the reference semantics',
                'generated programs are well-defined by construction (original must run clean, else discarded)',
                'real outputs compared to relative 1e-11',
